@@ -201,6 +201,52 @@ theorem subsecond_offset_runs_early :
       (10 + 2) * 1000 + 500 > s.now * 1000 := by
   decide
 
+/-! ### the coordinator (shapes regenerated from task/backend/coordinator/coordinator.go) -/
+
+/-- `TaskDeleted` forwards exactly `Release(id)`. -/
+theorem coord_deleted_releases (frm to : CTask) : coordFwd .deleted frm to = Fwd.rel := rfl
+
+/-- `TaskCreated` forwards `Schedule` with the last-scheduled time picked by `NewSchedulableTask` and aligned by
+`NewSchedule`; without cron/every it forwards nothing and returns the error. -/
+theorem coord_created_schedules (to : CTask) :
+    coordFwd .created to to = (if !to.hasSchedule then Fwd.err else
+      match pickTs to with
+      | some (some ts) => Fwd.sched (alignTs to.every ts)
+      | _ => Fwd.unknown) := by
+  simp only [coordFwd, Gen.coordCreated, applyShape, schedFwd]
+  split
+  · rfl
+  · cases pickTs to with
+    | none => rfl
+    | some o => cases o <;> rfl
+
+/-- `TaskUpdated` forwards `Release` exactly when the task has a schedule and the update DEACTIVATES it (status
+changed, new status inactive); every other update of a task with a schedule forwards `Schedule` — also one that
+leaves an inactive task inactive (which thereby gets scheduled). -/
+theorem coord_updated_releases_iff (frm to : CTask) (last : Int) (h : schedFwd to = Fwd.sched last) :
+    (coordFwd .updated frm to = Fwd.rel ↔ (frm.active ≠ to.active ∧ to.active = false)) ∧
+    (coordFwd .updated frm to ≠ Fwd.rel → coordFwd .updated frm to = Fwd.sched last) := by
+  simp only [coordFwd, Gen.coordUpdated, applyShape, h]
+  cases hf : frm.active <;> cases ht : to.active <;> simp
+
+/-- The alignment of the last-scheduled time for `@every N` never moves it forward and moves it back by less than
+one period: no occurrence after the given time is skipped by it. -/
+theorem alignTs_bounds (n ts : Int) (hn : n > 0) :
+    alignTs (some n) ts ≤ ts ∧ ts - alignTs (some n) ts < n := by
+  simp only [alignTs, hn, ite_true]
+  have h1 := Int.emod_nonneg (ts + goEpoch) (Int.ne_of_gt hn)
+  have h2 := Int.emod_lt_of_pos (ts + goEpoch) hn
+  omega
+
+/-- A forwarded call is one scheduler action (or none): histories produced through the coordinator are action
+sequences, so every theorem above applies to them. -/
+theorem coord_forward_is_one_action (E : Env) (s : St) (id sc : Nat) (offms : Int) (f : Fwd) :
+    ∃ acts, acts.length ≤ 1 ∧
+      (match fwdAct id sc offms f with | some a => act E s a | none => s) = runActs E s acts := by
+  cases h : fwdAct id sc offms f with
+  | none => exact ⟨[], by simp, rfl⟩
+  | some a => exact ⟨[a], by simp, rfl⟩
+
 /-! ### non-vacuity and sensitivity -/
 
 /-- The hypotheses are satisfiable and the theorems are not about empty histories: two tasks sharing the single
